@@ -17,7 +17,15 @@ def run(chk):
         "object identity = index of the attempt that produced the object; tracebacks are checked by the driver only",
     ]
     ok = chk.check_theorems()
-    rc.run_runner_check(chk, "C04", "proj_C04", OPTS, theorems_ok=ok)
+    # what call() must raise on a deferral or a handler's abort presupposes that the handler was consulted and obeyed: the clauses
+    # of the C16 oracle are applied as well (a run that ignores a DEFER never "stops on a deferral", and would otherwise look fine)
+    import oracles
+
+    def handler_protocol(seqs, obs):
+        return [(i, {"kind": "oracle", "oracle": "C16", "what": m, "script": s, "observed": o, "driver": "runner_driver"})
+                for i, (s, o) in enumerate(zip(seqs, obs)) for m in [oracles.check_seq("C16", s, o)] if m]
+
+    rc.run_runner_check(chk, "C04", "proj_C04", OPTS, theorems_ok=ok, extra_oracle=handler_protocol)
     values_part(chk)
     if ok:
         import source_tie
